@@ -295,7 +295,11 @@ func (g *Gen) Filter(depth int, top bool) *FSpec {
 		return &FSpec{K: "all", IDs: g.subsetAny(pool, 3), Ptr: g.R.Chance(0.5)}
 	case 1:
 		inc := g.subsetAny(pool, 2)
-		ex := minus(g.subsetAny(pool, 2), func(x int) bool { return contains(inc, x) })
+		ex := g.subsetAny(pool, 2)
+		if !g.R.Chance(0.1) {
+			// mostly disjoint; an excluded component that is also included makes the filter unsatisfiable
+			ex = minus(ex, func(x int) bool { return contains(inc, x) })
+		}
 		return &FSpec{K: "without", IDs: inc, Ex: ex}
 	case 2:
 		return &FSpec{K: "excl", IDs: few(3)}
